@@ -503,6 +503,28 @@ def run(ck, F):
                      f'{f["id"]} (line {n.get("ln")}): subscript of `{b.get("name")}` (extent {N}) by an index that is {why}: nothing keeps it '
                      f'below {N}', loc=f['loc'], fn=f['id'])
 
+    # ---------------------------------------------------------------- nothing is left indeterminate by a constructor
+    import initrule as _initrule
+    R_ind = ck.rule('C19.members-initialised', 'every user-provided constructor of a library class leaves no scalar sub-object of the new object indeterminate (directly or through a member or base whose default-initialisation does nothing): an accessor that reads such a member reads an indeterminate value, and a pointer among them is followed outside live objects', floor=200)
+    _SINGULAR = {'ipr::Sequence<': 'a default-constructed Sequence<T>::Iterator is a singular iterator (it may only be assigned to), as the '
+                 'iterator requirements allow; the library never reads one'}
+    for name_, r_ in sorted(F.rec.items()):
+        if not name_.startswith('ipr::') or r_.get('lambda'):
+            continue
+        for m_ in r_['methods']:
+            c_ = F.fn.get(m_['id']) if m_.get('ctor') else None
+            if c_ is None or c_.get('implicit') or c_.get('defaulted') or c_.get('body') is None or c_.get('copy'):
+                continue
+            leaves = _initrule.ctor_leaves(F, c_)
+            pass
+            why = next((w for k_, w in _SINGULAR.items() if name_.startswith(k_) and name_.endswith('::Iterator')), None)
+            if leaves and why:
+                ck.note(f'{contracts.short(name_)}: {why}')
+                leaves = []
+            ck.check(R_ind, contracts.short(contracts.fn_qname(c_['id'])) + '/' + str(len(c_['params'])), not leaves,
+                     f'{c_["id"]} leaves {leaves[:4]} of the {contracts.short(name_)} it constructs indeterminate (no initialiser in the constructor, no default '
+                     'member initialiser, and default-initialisation of that member does nothing)', loc=c_['loc'], fn=c_['id'])
+
     # the pool chain after an allocation: nothing that was reachable is lost, everything new is reachable
     R7 = ck.rule('C19.chain-preserved', 'on every path of arena::allocate (and of the constructor) the chain mem -> previous -> ... '
                  'reaches every block just obtained from operator new, still reaches the old head, and ends in the old tail: '
